@@ -87,6 +87,25 @@ func (c *aeCtx) candidates(w *world, na needAtom) []int {
 			cands = []int{0, 1}
 		}
 		var dom *fieldDomain
+		if i := strings.LastIndex(na.key, "["); i > 0 && strings.HasSuffix(na.key, "]") && c.subOf != nil {
+			if ri := c.subOf[na.key[:i]]; ri != nil && ti.kind == akOrder && isStringType(ti.t) {
+				var k int
+				if _, err := fmt.Sscanf(na.key[i:], "[%d]", &k); err == nil && k >= 1 && k <= ri.NumSub {
+					if lang, fin := groupLanguage(ri.Re, k); fin {
+						m := map[string]bool{}
+						if !(k < len(ri.GroupMust) && ri.GroupMust[k]) {
+							m[""] = true
+						}
+						for _, s := range lang {
+							m[s] = true
+						}
+						dom = &fieldDomain{closed: true, allowed: keysOf(m)}
+					} else if k < len(ri.GroupMust) && ri.GroupMust[k] && ri.GroupMin[k] >= 1 {
+						dom = &fieldDomain{excluded: []string{""}}
+					}
+				}
+			}
+		}
 		if o, ok := c.originOf[na.key]; ok && ti.kind == akOrder && isStringType(ti.t) {
 			dom = c.fieldDomainFor(na.key, o)
 		}
